@@ -200,8 +200,8 @@ pub proof fn lemma_fwd_sem_act<const K: usize>(a1: AArena<K>, am: AArena<K>, a2:
         kid_in_state(a1, p, f, true), forall|g: int| kid_in_state(a1, p, g, true) ==> g == f,
         fwd_unaffected(a1, h, root, p, x),
     ensures ranked_down(a2, h), tree_fn(a2, h, root, x) == tree_fn(a1, h, root, x),
-        forall|t: usize| t != p && reaches(a2, h, root, x, t) ==> reaches(a1, h, root, x, t),
-        forall|t: usize| t != p && reaches(a1, h, root, x, t) ==> reaches(a2, h, root, x, t),
+        forall|t: usize| #![trigger reaches(a2, h, root, x, t)] (t != p || a2.dom().contains(t)) && reaches(a2, h, root, x, t) ==> reaches(a1, h, root, x, t),
+        forall|t: usize| #![trigger reaches(a1, h, root, x, t)] t != p && reaches(a1, h, root, x, t) ==> reaches(a2, h, root, x, t),
 {
     let ls = infeasible_slots(a1, p);
     assert(!ls.contains(f));
@@ -227,8 +227,8 @@ pub proof fn lemma_fwd_sem<const K: usize>(a1: AArena<K>, a2: AArena<K>, h1: Map
     requires wf_at(a1, Some(root)), wf_at(a2, Some(root)), a1.dom().contains(p), forward_post(a1, a2, p, Some(root)), ranked_down(a1, h1), ranked_down(a2, h2),
         fwd_unaffected(a1, h1, root, p, x),
     ensures tree_fn(a2, h2, root, x) == tree_fn(a1, h1, root, x),
-        forall|t: usize| t != p && reaches(a2, h2, root, x, t) ==> reaches(a1, h1, root, x, t),
-        forall|t: usize| t != p && reaches(a1, h1, root, x, t) ==> reaches(a2, h2, root, x, t),
+        forall|t: usize| #![trigger reaches(a2, h2, root, x, t)] (t != p || a2.dom().contains(t)) && reaches(a2, h2, root, x, t) ==> reaches(a1, h1, root, x, t),
+        forall|t: usize| #![trigger reaches(a1, h1, root, x, t)] t != p && reaches(a1, h1, root, x, t) ==> reaches(a2, h2, root, x, t),
 {
     if count_state(a1, p, 0, true) == 1 && count_state(a1, p, 0, false) == K - 1 {
         let ls = infeasible_slots(a1, p);
@@ -247,5 +247,11 @@ pub proof fn lemma_fwd_sem<const K: usize>(a1: AArena<K>, a2: AArena<K>, h1: Map
     }
     lemma_tree_fn_rank_indep(a2, h1, h2, root, x);
     assert forall|t: usize| reaches(a2, h2, root, x, t) == reaches(a2, h1, root, x, t) by { lemma_reaches_rank_indep(a2, h1, h2, root, x, t); }
+    assert forall|t: usize| (t != p || a2.dom().contains(t)) && reaches(a2, h2, root, x, t) implies reaches(a1, h1, root, x, t) by {
+        assert(reaches(a2, h1, root, x, t));
+    }
+    assert forall|t: usize| t != p && reaches(a1, h1, root, x, t) implies reaches(a2, h2, root, x, t) by {
+        assert(reaches(a2, h1, root, x, t));
+    }
 }
 // ---- end sem_spec ----
